@@ -46,7 +46,7 @@ ASSUMPTIONS = [
     "cache key injective (C09), restore exact (C06), atomic per-target steps",
 ]
 
-FAMILIES_QUICK = [("edits", 4), ("wipe", 6), ("lostblob", 6), ("dirs", 3), ("alias", 2), ("aliaswipe", 5), ("nocache", 5), ("tamper", 3), ("disabled", 3), ("taint", 2)]
+FAMILIES_QUICK = [("edits", 3), ("wipe", 5), ("lostblob", 5), ("dirs", 3), ("alias", 2), ("aliaswipe", 4), ("nocache", 4), ("tamper", 2), ("disabled", 2), ("taint", 2), ("collector", 3), ("run", 5), ("fanout", 3)]
 FAMILIES_THOROUGH = [(f, n * 15) for f, n in FAMILIES_QUICK]
 
 
@@ -62,13 +62,26 @@ def run(ctx):
     hists = []
     for fam, n in fams:
         for _ in range(n):
-            hists.append(H.gen_history(ctx.rng, fam))
+            if fam == "collector":
+                hists.append(H.gen_collector(ctx.rng))
+            elif fam == "run":
+                hists.append(H.gen_runchain(ctx.rng))
+            else:
+                hists.append(H.gen_history(ctx.rng, fam))
+    # convergence step: after the history both universes build everything in mode `all`; whatever minimal left in its cache
+    # must then materialise exactly the outputs of the `all` universe
+    for h in hists:
+        h["steps"].append({"k": "build", "patterns": ["//..."], "minimal": False, "enable_cache": True, "fail_fast": False,
+                           "pin_mode": True, "converge": True})
     ctx.coverage["rule"] = ("layered DAGs of 2-6 targets (aliases incl. chains, no-cache tags in the nocache/taint families); histories of edits / "
                             "tampering / taints / cache-disabled builds with random selections, each run twice in lock-step (all, minimal) "
                             "in separate workspaces and cache roots (wipe = fresh checkout with a warm cache / sources reverted; lostblob = chain with the "
                             "blob of the middle target lost and its workspace copy removed; dirs = directory outputs whose entry set follows the inputs, "
                             "tampered in place); families: " + ", ".join("%s x%d" % f for f in fams) +
-                            "; non-trivial = distinct history with >=2 builds, one executing and one with a hit (in the minimal universe)")
+                            "; collector = command-less target whose dir:: output is produced by its dependencies; run = `grog run` of generated binaries (one or two run "
+                            "targets, reverts, wipes); fanout = one cached dependency with a 600-file directory and several dependants re-running at once; every history "
+                            "ends with a mode-all build of everything in both universes (convergence); non-trivial = distinct history with >=2 builds, one executing "
+                            "and one with a hit (in the minimal universe)")
     grog = ctx.grog_binary()
     if not grog:
         return
@@ -97,6 +110,20 @@ def run(ctx):
                     "all": {"ok": o_all["ok"], "executed": o_all["executed"]}, "minimal": {"ok": om["ok"], "executed": om["executed"]}}
             if om["ok"] != o_all["ok"]:
                 return ("a build succeeds under one load_outputs mode and fails under the other", base, "verdict-differs")
+            if "run_out" in om and om["run_out"] != o_all.get("run_out"):
+                return ("`grog run`: the binaries print different lines under the two modes (a run target did not find the current outputs of its dependencies)",
+                        dict(base, all_lines=o_all.get("run_out"), minimal_lines=om["run_out"]), "run-output-differs")
+            if b["step"].get("converge"):
+                if om["ok"]:
+                    for p in sorted(H.all_out_paths(ws)):
+                        if count:
+                            cnt["outputs_compared"] += 1
+                        if om["fs"].get(p) != o_all["fs"].get(p):
+                            return ("after the history, a mode-`all` build of everything materialises different bytes in the universe that used "
+                                    "`minimal` (a wrong result was cached under `minimal`)",
+                                    dict(base, path=p, minimal_bytes=(om["fs"].get(p) or "")[:300], all_bytes=(o_all["fs"].get(p) or "")[:300]),
+                                    "converged-output-differs")
+                continue
             # a target whose blob was lost is irretrievable: mode all re-executes it when it reaches it, minimal only when an
             # executing direct dependant needs its outputs — that difference is the purpose of minimal, not a defect
             lost = lost_owners(h, ws)
